@@ -1,7 +1,8 @@
 ---------------------------- MODULE ObserveTrace ----------------------------
 (* Code -> spec direction for C13.  A trace is recorded from the real code:
-   a result of kind `kind` is evaluated on inputs that should (good) or
-   should not pass, then read-only operations are applied; after the
+   a result of kind `kind` is obtained (`origin`: evaluate() / direct
+   construction with default optional arguments / unpickled) on inputs that
+   should (good) or should not pass, then read-only operations are applied; after the
    evaluation and after every operation the harness records the abstract
    state of the live result (verdict, digest number of the recorded
    statistics, digest number of the inputs; number 0 = the value right after
@@ -19,35 +20,36 @@ Traces == JsonDeserialize(IOEnv.VERIF_CASES)
 NTraces == Len(Traces)
 
 Kinds == {"equal", "approx", "student", "bonferroni", "holm", "chi2", "metadata",
-          "stats-tasks", "stats-tests", "stats-bylabels", "failed"}
+          "stats-tasks", "stats-tests", "stats-bylabels", "failed", "external"}
+Origins == {"evaluate", "direct", "unpickled"}
 AlwaysBad == {"failed"}
-PlainOps == {"bool", "oracles", "counts", "fingerprint", "copy", "pickle", "reeval"}
-VerbOps == {"table", "plot", "full", "rst"}
+PlainOps == {"bool", "oracles", "counts", "data", "fingerprint", "copy", "pickle", "reeval"}
+VerbOps == {"table", "plot", "full", "rst", "draw"}
 Verbs == 0 .. 5
 MaxLen == 100000
-VARIABLES kind, good, pc, abs, dup, hist
+VARIABLES kind, origin, good, pc, abs, dup, hist
 O == INSTANCE Observe
 
 VARIABLES t, e, bad
-tvars == <<kind, good, pc, abs, dup, hist, t, e, bad>>
+tvars == <<kind, origin, good, pc, abs, dup, hist, t, e, bad>>
 
-Digest(what, c, n) == IF n = 0 THEN <<what, c.kind, c.good>> ELSE <<"changed-" \o what, ToString(n), c.good>>
+Digest(what, c, n) == IF n = 0 THEN <<what, c.kind, c.origin, c.good>> ELSE <<"changed-" \o what, ToString(n), c.origin, c.good>>
 ObsAbs(c, ev) == [verdict |-> ev.verdict, stats |-> Digest("stats", c, ev.stats), data |-> Digest("data", c, ev.data)]
 ObsDup(c, ev) == [verdict |-> ev.dupVerdict, stats |-> Digest("stats", c, ev.dupStats), data |-> Digest("data", c, ev.dupData)]
 OpOf(ev) == [op |-> ev.op, verb |-> ev.verb]
 
 TInit == /\ t = 1 /\ e = 0 /\ bad = {}
-         /\ kind = "" /\ good = FALSE /\ pc = "new" /\ abs = O!Unset /\ dup = O!Unset /\ hist = <<>>
+         /\ kind = "" /\ origin = "" /\ good = FALSE /\ pc = "new" /\ abs = O!Unset /\ dup = O!Unset /\ hist = <<>>
 
 (* start of trace t: a result that is not evaluated yet *)
 Reset == /\ e = 0 /\ t <= NTraces
-         /\ kind' = Traces[t].kind /\ good' = Traces[t].good
+         /\ kind' = Traces[t].kind /\ origin' = Traces[t].origin /\ good' = Traces[t].good
          /\ pc' = "new" /\ abs' = O!Unset /\ dup' = O!Unset /\ hist' = <<>>
          /\ e' = 1 /\ UNCHANGED <<t, bad>>
 
 Event == /\ e > 0 /\ t <= NTraces
          /\ LET c == Traces[t]  ev == c.events[e]  last == (e = Len(c.events)) IN
-            /\ kind' = kind /\ good' = good /\ pc' = "ready"
+            /\ kind' = kind /\ origin' = origin /\ good' = good /\ pc' = "ready"
             /\ abs' = ObsAbs(c, ev) /\ dup' = ObsDup(c, ev)
             /\ hist' = IF ev.op = "evaluate" THEN hist ELSE Append(hist, OpOf(ev))
             /\ LET legal == IF ev.op = "evaluate" THEN O!Evaluate
